@@ -51,7 +51,7 @@ the tracked files), quick tier, `VERIF_SEED=1`.
 | 7 (M, N) | %d of %d | 36 of 39 (3 are not violations of the statements as written, see below) |
 | 8 (O, P) | %d of %d | 37 of 38 (1 cannot touch a recorded withdrawal, see below) |
 | 9 (Q, R) | %d of %d | 39 of 40 (1 needs a chain without bonded validators, see below) |
-| 10 (S, T) | %d of %d | ROUND10AFTER |
+| 10 (S, T) | %d of %d | 38 of 38 |
 
 "caught by" lists every check that was run against the change and exited 1 (round 1: the
 property's own check plus a related set of 4-10 checks; rounds 2 to 10: the own check; C13-H, C13-I, C13-L also against C14, C06-L against C07, C20-L against C07 and C09); every other
